@@ -281,29 +281,55 @@ Section Run.
   (* ---------------------------------------------------------------- the file phase *)
 
   Variable merged : list block.
-  Hypothesis Hmode2 : (j_mode c =? 2) = false.     (* from a number or from a cursor: joins ask for a block number *)
   Hypothesis Hmerged_U : forall b, In b merged -> In b U.
 
-  Lemma join_mode0 w lowest e burst : join_try c w lowest e = Some burst ->
+  (* what a successful join on the file block bn hands over: a burst bn :: sufb of New / new+irreversible events,
+     a parent-linked run of the universe that ends with the head *)
+  Definition join_good (w : world) : Prop :=
+    forall lowest bn burst, In bn merged -> join_try c w lowest (fev bn) = Some burst ->
+      h_ready (w_hub w) = true /\
+      forall V, VState U first kept (h_f (w_hub w)) V ->
+        exists hd sufb l, hd_error V = Some hd /\ map eblk burst = bn :: sufb /\
+          Forall (fun e => matches_new (estep e) = true) burst /\
+          Forall (fun y => In y U) (bn :: sufb) /\ lnk (bid bn) sufb /\ bn :: sufb = l ++ [hd].
+  Definition joins_good (w : world) : Prop := forall m, join_good (world_after c m w).
+
+  Lemma joins_after w m : joins_good w -> joins_good (world_after c m w).
+  Proof. intros H k. rewrite world_after_add. apply H. Qed.
+
+  Lemma join_mode0 w lowest e burst : (j_mode c =? 2) = false -> join_try c w lowest e = Some burst ->
     blocks_from_num (h_f (w_hub w)) (bnum (eblk e)) = BOk burst /\ h_ready (w_hub w) = true.
   Proof.
-    unfold join_try. rewrite Hmode2.
+    intros Hmode2. unfold join_try. rewrite Hmode2.
     destruct ((lowest <=? bnum (eblk e)) && matches_new (estep e)); [|discriminate].
     destruct (blocks_from_num (h_f (w_hub w)) (bnum (eblk e))) as [evs| | |]; try discriminate.
     destruct (h_ready (w_hub w)); [|discriminate]. intros H. injection H as <-. auto.
   Qed.
 
+  (* from a number or from a cursor the join asks for a block number: files_agree makes it good *)
+  Lemma agree_joins w : (j_mode c =? 2) = false -> files_agree c w merged -> joins_good w.
+  Proof.
+    intros Hmode2 Hagr m lowest bn burst Hbn Ej.
+    destruct (join_mode0 _ lowest (fev bn) burst Hmode2 Ej) as [Hb Hrd]. cbn [eblk file_event] in Hb.
+    split; [exact Hrd|]. intros V HV.
+    destruct (burst_shape _ V (bnum bn) burst HV Hb)
+      as (hd & sg & x & suf & l & Hls & Hhd & Eseg & Hxin & Hnx & Hmap & Hnew & HbU & Hlsuf & Hlast).
+    assert (Ex : seg_blk x = bn) by (exact (Hagr m hd sg x bn Hrd Hls Eseg Hxin Hbn Hnx)).
+    rewrite Ex in *. exists hd, (map seg_blk suf), l.
+    split; [exact Hhd|]. split; [exact Hmap|]. split; [exact Hnew|]. split; [exact HbU|]. split; [exact Hlsuf | exact Hlast].
+  Qed.
+
   (* J0: the consumer before the stream; out: what it has been given so far, after which it holds Dpre *)
-  Lemma file_run fuel J0 : forall D' Dpre out w lowest count ps,
-    WOK w -> eventual_tip c w canon -> files_agree c w merged ->
+  Lemma file_run fuel J0 fend : forall D' Dpre out w lowest count ps,
+    WOK w -> eventual_tip c w canon -> joins_good w ->
     sfold J0 out = Some (rev Dpre) ->
     (exists x, lnk x (Dpre ++ D')) -> (forall b, In b (Dpre ++ D') -> In b merged) ->
     (forall z r, Dpre ++ D' = z :: r -> bnum z <= start) ->
-    let res := file_phase fuel c w lowest (map fev D') JNil count ps out in
+    let res := file_phase fuel c w lowest (map fev D') fend count ps out in
     exists st, sfold J0 (fst res) = Some st /\
       (snd res = JNil -> rev st = Dpre ++ D' \/ (D' <> [] /\ from_num start (rev st) = from_num start canon)).
   Proof.
-    induction D' as [|bn D' IH]; intros Dpre out w lowest count ps HW Htip Hagr Hout [x0 Hl] Hin Hbot res.
+    induction D' as [|bn D' IH]; intros Dpre out w lowest count ps HW Htip Hjg Hout [x0 Hl] Hin Hbot res.
     - unfold res. cbn [map file_phase fst snd]. exists (rev Dpre). split; [exact Hout|].
       intros _. left. rewrite app_nil_r, rev_involutive. reflexivity.
     - assert (HlD : lnk x0 (Dpre ++ [bn])).
@@ -314,17 +340,14 @@ Section Run.
       unfold res. cbn [map]. rewrite file_phase_cons.
       destruct (join_try c w lowest (fev bn)) as [burst|] eqn:Ej.
       + (* the join *)
-        destruct (join_mode0 w lowest (fev bn) burst Ej) as [Hb Hrd]. cbn [eblk file_event] in Hb.
+        destruct (Hjg 0%nat lowest bn burst Hbn Ej) as [Hrd HJ].
         destruct HW as [Hok Hrest].
         destruct (vstate_of_hub U first kept U_id U_uniq U_up D_decl (w_hub w) Hok Hrd) as [V HV].
-        destruct (burst_shape (h_f (w_hub w)) V (bnum bn) burst HV Hb)
-          as (hd & sg & x & suf & l & Hls & Hhd & Eseg & Hxin & Hnx & Hmap & Hnew & HbU & Hlsuf & Hlast).
-        assert (Ex : seg_blk x = bn) by (exact (Hagr 0%nat hd sg x bn Hrd Hls Eseg Hxin Hbn Hnx)).
-        rewrite Ex in *.
+        destruct (HJ V HV) as (hd & sufb & l & Hhd & Hmap & Hnew & HbU & Hlsuf & Hlast).
         destruct (vstate_facts U first kept U_id U_uniq U_up (h_f (w_hub w)) V HV) as (HVne & HcV & _).
         assert (Hbot' : forall z r, Dpre ++ [bn] = z :: r -> bnum z <= start).
         { intros z r Ez. apply (Hbot z (r ++ D')). change (bn :: D') with ([bn] ++ D'). rewrite app_assoc, Ez. reflexivity. }
-        destruct (join_rel_core V burst Dpre bn (map seg_blk suf) l hd HVne HcV Hhd Hmap Hnew HbU Hlsuf Hlast
+        destruct (join_rel_core V burst Dpre bn sufb l hd HVne HcV Hhd Hmap Hnew HbU Hlsuf Hlast
                     (ex_intro _ x0 HlD) HDU Hbot') as (J1 & HJ1 & HR).
         destruct (live_run fuel w V burst count ps J0 out (rev Dpre) J1 (conj Hrd (conj HV Hrest)) Htip Hout HJ1 HR)
           as (st & Hst & Hfin).
@@ -343,7 +366,7 @@ Section Run.
         assert (EDD : (Dpre ++ [bn]) ++ D' = Dpre ++ bn :: D') by (rewrite <- app_assoc; reflexivity).
         specialize (IH (Dpre ++ [bn]) (out ++ [fev bn]) (world_after c m w)
                       (if (lowest <=? bnum (eblk (fev bn))) && matches_new (estep (fev bn)) then hub_lowest (w_hub w) else lowest)
-                      (count + 1) ps' (wok_after m w HW) (tip_after w m Htip) (agree_after w m merged Hagr) Hout').
+                      (count + 1) ps' (wok_after m w HW) (tip_after w m Htip) (joins_after w m Hjg) Hout').
         rewrite EDD in IH. destruct (IH (ex_intro _ x0 Hl) Hin Hbot) as (st & Hst & Hfin).
         exists st. split; [exact Hst|]. intros Hn. destruct (Hfin Hn) as [H|[_ H]]; [left; exact H | right; split; [discriminate | exact H]].
   Qed.
@@ -360,13 +383,15 @@ Section Run.
       (snd res = JNil -> rev st = D \/ from_num start (rev st) = from_num start canon).
   Proof.
     intros Hmode Hstart HW Htip Hagr D HlD HbotD res.
+    assert (Hmode2 : (j_mode c =? 2) = false) by (rewrite Hmode; reflexivity).
+    pose proof (agree_joins w Hmode2 Hagr) as Hjg.
     assert (HinD : forall b, In b ([] ++ D) -> In b merged).
     { intros b Hb. cbn [app] in Hb. unfold D, file_delivery in Hb. apply filter_In in Hb as [Hb _]. exact Hb. }
     assert (Hfile : forall fuel lowest,
               exists st, sfold [] (fst (file_phase fuel c w lowest (map fev D) JNil 0 ps [])) = Some st /\
                 (snd (file_phase fuel c w lowest (map fev D) JNil 0 ps []) = JNil ->
                  rev st = D \/ from_num start (rev st) = from_num start canon)).
-    { intros fuel lowest. destruct (file_run fuel [] D [] [] w lowest 0 ps HW Htip Hagr eq_refl HlD HinD HbotD) as (st & Hst & Hfin).
+    { intros fuel lowest. destruct (file_run fuel [] JNil D [] [] w lowest 0 ps HW Htip Hjg eq_refl HlD HinD HbotD) as (st & Hst & Hfin).
       exists st. split; [exact Hst|]. intros Hn. destruct (Hfin Hn) as [H|[_ H]]; [left; exact H | right; exact H]. }
     unfold res, stream_run. cbv zeta.
     change (abs_start (j_first c) (j_start c) match hub_head (w_hub w) with Some (r, _) => rn r | None => 0 end)
